@@ -21,6 +21,8 @@ import ASV.Proofs.OrfCross
 import ASV.Proofs.OrfGapsComplete
 import ASV.Proofs.OrfComplement
 import ASV.Proofs.OrfTrim
+import ASV.Proofs.OrfRecord
+import ASV.Proofs.OrfTranslate
 namespace ASV.C15
 open ASV ASV.Orf
 
@@ -395,6 +397,69 @@ theorem all_orfs_complete_linear (rec : Seq) (start «end» minLen pad : Int) (g
   have := this genes start a hm
   omega
 
+/-! ### 5b. `find_all_orfs` on a record: the genes come from the record's own lookup -/
+
+/-- the gap search in the words of the property ("up to the allowed overlap"): any stretch inside
+    a returned area shares at most `pad` bases with every gene handed to the search — also with
+    genes shorter than twice the padding -/
+theorem intergenic_sound_overlap (start «end» minLen pad : Int) (genes : List Gene) (hpad : 0 ≤ pad)
+    (hsorted : sortedByStart genes) (a : Int × Int)
+    (ha : a ∈ findIntergenic start «end» genes minLen pad) (g : Gene) (hg : g ∈ genes)
+    (x y : Int) (hx : a.1 ≤ x) (hy : y ≤ a.2) : overlapSize g x y ≤ pad :=
+  findIntergenic_overlap start «end» minLen pad genes hpad hsorted a ha g hg x y hx hy
+
+/-- `find_all_orfs(record, area)` with the gene lists obtained the way the code obtains them —
+    `record.get_cds_features()` for the whole record, `get_cds_features_within_location(area.location,
+    with_overlapping=True)` (C08's model, `Lookup.within`) for an area — returns no ORF sharing more than
+    `max_overlap` bases with ANY gene of the record: nested genes, genes starting before the area and
+    reaching into it, whatever lies between them in the record's order.  `genes` is the record's gene
+    list (in `Feature.__lt__` order, well-formed: invariants of every record, C08 `genes_stay_sorted`),
+    no gene running over the origin (several exons and introns are fine: the bound holds exon by exon);
+    the area is absent or a single stretch inside the record. -/
+theorem all_orfs_avoid_every_gene (rec : Seq) (genes : List Lookup.Gene) (hs : Lookup.Sorted genes)
+    (hok : Lookup.GenesOK genes) (hsimple : AllLinear genes) (area : Option Part) (minLen pad : Int)
+    (hL : 0 < rec.length) (hpad : 0 ≤ pad) (hmin : 0 ≤ minLen)
+    (harea : ∀ p, area = some p → 0 ≤ p.lo ∧ p.lo < p.hi ∧ p.hi ≤ rec.length)
+    (locs : List Loc) (h : findAllOrfsRec rec genes (area.map Loc.simple) minLen pad = some locs) :
+    ∀ l ∈ locs, locOverlapOk (genes.map (·.loc)) pad l = true :=
+  findAllOrfsRec_overlap_linear rec genes hs hok hsimple area minLen pad hL hpad hmin harea locs h
+
+/-- the same for an origin-crossing area `join{[a, L), [0, b)}` with `0 < b ≤ a < L`: each part's genes
+    come from the lookup for that part, and every part of every ORF found (also of an ORF running over
+    the origin) shares at most `max_overlap` bases with any gene of the record -/
+theorem all_orfs_avoid_every_gene_crossing (rec : Seq) (genes : List Lookup.Gene) (hs : Lookup.Sorted genes)
+    (hok : Lookup.GenesOK genes) (hsimple : AllLinear genes) (a b : Int) (s1 s2 : Strand) (minLen pad : Int)
+    (hpad : 0 ≤ pad) (hmin : 0 ≤ minLen) (hb : 0 < b) (hba : b ≤ a) (haL : a < rec.length)
+    (hcross : Lookup.crosses (.compound [⟨a, rec.length, s1⟩, ⟨0, b, s2⟩]) = true)
+    (locs : List Loc)
+    (h : findAllOrfsRec rec genes (some (.compound [⟨a, rec.length, s1⟩, ⟨0, b, s2⟩])) minLen pad = some locs) :
+    ∀ l ∈ locs, locOverlapOk (genes.map (·.loc)) pad l = true :=
+  findAllOrfsRec_overlap_crossing rec genes hs hok hsimple a b s1 s2 minLen pad hpad hmin hb hba haL hcross locs h
+
+/-! ### 5c. "each with a translation matching its location" -/
+
+/-- the regenerated Biopython codon tables 1 and 11 (the ones antiSMASH records use) translate every
+    ACGT codon that is not a stop, have exactly the documented stop codons, none of them in the
+    forward table, and produce none of the residues `*BJOUZ` that would be rewritten to `X` -/
+theorem codon_tables_ok :
+    TableOk Gen.forwardTable11 Gen.stopCodons11 ∧ TableOk Gen.forwardTable1 Gen.stopCodons1 :=
+  ⟨table11_ok, table1_ok⟩
+
+/-- for every ORF (`IsOrf`) over unambiguous upper-case DNA, the translation given to the new
+    feature (`Record.get_aa_translation_from_location` to the first stop, `*BJOUZ → X`, then
+    "always start with methionine") computed from the ORF's own nucleotides — which is what the
+    reported location extracts to (`orf_coords_extract_*`) — is the protein it encodes: `M`, then one
+    residue per codon up to the stop, the stop excluded; the fallback "go past stop codons" and the
+    `X` replacement never fire -/
+theorem orf_translation_matches (tbl : List (Seq × Char)) (stops : List Seq) (hok : TableOk tbl stops)
+    (w : Seq) (s e : Nat) (horf : IsOrf w s e) (hacgt : ∀ c ∈ orfSeq w s e, c ∈ acgt) :
+    featureTranslation tbl stops (orfSeq w s e) = some (specProtein tbl w s e) ∧
+    ((specProtein tbl w s e).length : Int) * 3 + 3 = orfLen s e := by
+  refine ⟨featureTranslation_orf tbl stops hok w s e horf hacgt, ?_⟩
+  have := horf.frame; have := horf.lt
+  simp only [specProtein, List.length_cons, List.length_map, List.length_range, orfLen]
+  omega
+
 /-! ### 6. `get_trimmed_orf` (tree with fixes/D57: new location by C09's exon walk) -/
 
 /-- the start chosen is a start codon of the (not upper-cased) ORF, lies in the search range
@@ -431,6 +496,26 @@ theorem trimmed_orf_suffix (recf : Int → Char) (compl : Char → Char) (l : Lo
       ProtDna.extract recf compl r = (ProtDna.extract recf compl l).drop k ∧
       (∀ q ∈ r.parts, ∃ p ∈ l.parts, p.lo ≤ q.lo ∧ q.lo < q.hi ∧ q.hi ≤ p.hi ∧ q.strand = p.strand) :=
   trimmedOrf_suffix recf compl l hwf incl minLen maxLen k h
+
+/-- trimming keeps an ORF clear of the genes: whatever bound on shared bases holds for the ORF
+    (e.g. by `all_orfs_avoid_every_gene`) holds for its trimmed version, for every gene location -/
+theorem trimmed_orf_avoids_every_gene (recf : Int → Char) (compl : Char → Char) (l : Loc)
+    (hwf : ProtDna.geneWF l = true) (incl : Option Int) (minLen : Int) (maxLen : Option Int) (r : Loc)
+    (h : trimmedOrf (ProtDna.extract recf compl l) l incl minLen maxLen = .found r)
+    (genes : List Loc) (pad : Int) (hl : locOverlapOk genes pad l = true) :
+    locOverlapOk genes pad r = true := by
+  have hfound : ∃ k, trimSearch (ProtDna.extract recf compl l) incl minLen maxLen = .start k := by
+    unfold trimmedOrf at h
+    split at h
+    · simp only [reduceCtorEq] at h
+    · simp only [reduceCtorEq] at h
+    · rename_i k hk; exact ⟨k, hk⟩
+  obtain ⟨k, hk⟩ := hfound
+  obtain ⟨r', hr', _, hin⟩ := trimmedOrf_suffix recf compl l hwf incl minLen maxLen k hk
+  rw [h] at hr'
+  have : r = r' := by simpa using hr'
+  subst this
+  exact locOverlapOk_mono genes pad l r hin hl
 
 /-- …and nothing else is ever returned: a found location always comes from a found start -/
 theorem trimmed_orf_found_iff (seq : Seq) (l : Loc) (incl : Option Int) (minLen : Int) (maxLen : Option Int)
@@ -478,6 +563,18 @@ example : findIntergenic 0 200 [⟨95, 114⟩] 0 10 = [(0, 105), (104, 200)] := 
 /-- trimming an origin-crossing ORF (D57): ring of 30, ORF = [20,30) + [0,8), latest start at 6 -/
 example : trimmedOrf "ATGAAAGTGCCCGGGTAA".toList (.compound [⟨20, 30, .fwd⟩, ⟨0, 8, .fwd⟩]) none 0 none
     = .found (.compound [⟨26, 30, .fwd⟩, ⟨0, 8, .fwd⟩]) := by decide
+/-- a long gene [0,20) reaching into the area [8,30) with a short gene [2,5) nested in it that ends before
+    the area (the layout on which a look-back that stops at the first earlier gene ending before the
+    area loses the long gene): the lookup finds the long gene, the ORF at [10,19) inside it is not
+    reported, the one at [21,30) in the gap is -/
+example : (Lookup.within [⟨0, .simple ⟨0, 20, .fwd⟩, []⟩, ⟨1, .simple ⟨2, 5, .rev⟩, []⟩]
+    (.simple ⟨8, 30, .fwd⟩) true).map geneOf = [⟨0, 20⟩] := by decide
+example : findAllOrfsRec "CCCCCCCCCCATGAAATAACCATGCCCTAA".toList
+    [⟨0, .simple ⟨0, 20, .fwd⟩, []⟩, ⟨1, .simple ⟨2, 5, .rev⟩, []⟩] (some (.simple ⟨8, 30, .fwd⟩)) 6 0
+    = some [.simple ⟨21, 30, .fwd⟩] := by decide
+/-- GTG start, four codons, stop: the feature's translation is M K P G -/
+example : featureTranslation Gen.forwardTable11 Gen.stopCodons11 "GTGAAACCCGGGTAA".toList = some "MKPG".toList := by decide
+example : specProtein Gen.forwardTable11 "CCGTGAAACCCGGGTAAC".toList 2 14 = "MKPG".toList := by decide
 example : sortedByStart [⟨0, 110⟩, ⟨50, 105⟩] := (sortedByStartB_iff _).1 (by decide)
 
 end ASV.C15
